@@ -114,6 +114,9 @@ def run(tier: str) -> int:
                 rep.stats.nontrivial.add(r["hash"])
             if "sample" in r and len(rep.stats.samples) < 3:
                 rep.stats.sample(r["sample"])
+        nb = run_bmc_part(rep, wd, tier, counts)
+        rep.assumptions += ["%d BMC designs (K=6 from power-up, reset / extra condition / load / data symbolic per clock): SequentialContext.or_reset with every polarity combination and sync/async parent; std.NoresetSignal of a record, an array and a primitive next to an ordinary record" % nb]
+        rep.stats.units |= {"cohdl.std._context.SequentialContext.or_reset", "cohdl.std._core_utility._Noreset (NoresetSignal / NoresetVariable)"}
         rep.stats.units |= {"cohdl.std._context._sequential_impl (sync/async wrappers, sensitivity lists, on_reset)",
                             "cohdl.std._context.SequentialContext.__call__", "cohdl._core._ir._repr.Sequential._pushed_resettable_signals",
                             "Clock/Reset classes (edge, polarity)"}
@@ -130,6 +133,122 @@ def run(tier: str) -> int:
         }, max_inconclusive=2)
     finally:
         wd.close()
+
+
+# ---------------------------------------------------------------- derived resets and aggregate noreset objects (BMC + monitors)
+from .. import dom as D
+from .. import vhdl_sim as VS
+from ..vhdl_parse import Illegal
+from ..bmc import Monitor, run_bmc, compile_design
+from .c16 import HEADER as BMC_HEADER, mux, bit
+
+
+def or_reset_design(parent_low, parent_async, derived_low):
+    pa = ["self.reset"] + (["active_low=True"] if parent_low else []) + (["is_async=True"] if parent_async else [])
+    da = ["self.clr"] + (["active_low=True"] if derived_low else [])
+    return "\n".join([BMC_HEADER, "class W(cohdl.Entity):", "    clk = Port.input(Bit)", "    reset = Port.input(Bit)", "    clr = Port.input(Bit)", "    x = Port.input(Unsigned[3])",
+                      "    o = Port.output(Unsigned[3], default=5)", "    p = Port.output(Unsigned[3], default=2)", "    def architecture(self):",
+                      f"        ctx = std.SequentialContext(std.Clock(self.clk), std.Reset({', '.join(pa)}))",
+                      f"        ctx2 = ctx.or_reset({', '.join(da)})",
+                      "        @ctx2", "        def derived():", "            self.o <<= self.x",
+                      "        @ctx", "        def parent():", "            self.p <<= self.x"]) + "\n"
+
+
+class OrResetMonitor(Monitor):
+    """derived context: reset when the parent's reset OR the extra condition is active (each with its own polarity);
+    the parent context only by its own reset"""
+
+    def __init__(self, parent_low, derived_low):
+        super().__init__()
+        self.pl, self.dl = parent_low, derived_low
+        self.o, self.p = 5, 2
+
+    def step(self, i, ins, outs):
+        pr = bit(ins["reset"])
+        pr = D.b_not(pr) if self.pl else pr
+        dc = bit(ins["clr"])
+        dc = D.b_not(dc) if self.dl else dc
+        self.o = mux(D.b_or(pr, dc), 5, ins["x"], 3)
+        self.p = mux(pr, 2, ins["x"], 3)
+        self.check(D.v_eq(outs["o"], self.o, 3), "derived context (or_reset): register differs (parent reset or extra condition must reset it, nothing else)")
+        self.check(D.v_eq(outs["p"], self.p, 3), "parent context: register differs")
+
+
+def noreset_aggregate_design(low, is_async):
+    ra = ["self.reset"] + (["active_low=True"] if low else []) + (["is_async=True"] if is_async else [])
+    return "\n".join([BMC_HEADER, "class C04Rec(std.Record):", "    a: Bit", "    b: Unsigned[3]", "",
+                      "class W(cohdl.Entity):", "    clk = Port.input(Bit)", "    reset = Port.input(Bit)", "    ld = Port.input(Bit)", "    x = Port.input(Unsigned[3])",
+                      "    kb = Port.output(Unsigned[3])", "    ka = Port.output(Bit)", "    nb = Port.output(Unsigned[3])", "    ke = Port.output(Unsigned[3])", "    kp = Port.output(Unsigned[3])",
+                      "    def architecture(self):",
+                      "        keep = std.NoresetSignal[C04Rec](C04Rec(a=True, b=3))",
+                      "        norm = std.Signal[C04Rec](C04Rec(a=False, b=1))",
+                      "        karr = std.NoresetSignal[std.Array[Unsigned[3], 2]]([6, 4])",
+                      "        kprim = std.NoresetSignal[Unsigned[3]](7)",
+                      f"        @std.sequential(std.Clock(self.clk), std.Reset({', '.join(ra)}))", "        def proc():",
+                      "            if self.ld:", "                keep.b <<= self.x", "                keep.a <<= self.x[0]", "                norm.b <<= self.x", "                karr[1] <<= self.x", "                kprim.next = self.x",
+                      "        @std.concurrent", "        def show():", "            self.kb <<= keep.b", "            self.ka <<= keep.a", "            self.nb <<= norm.b", "            self.ke <<= karr[1]", "            self.kp <<= kprim"]) + "\n"
+
+
+class NoresetAggMonitor(Monitor):
+    """noreset objects (record members, array elements, primitives) keep their value while reset is active;
+    ordinary records go back to their initial value"""
+
+    def __init__(self, low):
+        super().__init__()
+        self.low = low
+        self.kb, self.ka, self.nb, self.ke, self.kp = 3, 1, 1, 4, 7
+
+    def step(self, i, ins, outs):
+        r = bit(ins["reset"])
+        r = D.b_not(r) if self.low else r
+        ld = D.b_and(bit(ins["ld"]), D.b_not(r))
+        x = ins["x"]
+        self.kb = mux(ld, x, self.kb, 3)
+        self.ka = mux(ld, D.v_extract(x, 0, 0, 3), self.ka, 1)
+        self.ke = mux(ld, x, self.ke, 3)
+        self.kp = mux(ld, x, self.kp, 3)
+        self.nb = mux(r, 1, mux(ld, x, self.nb, 3), 3)
+        self.check(D.v_eq(outs["kb"], self.kb, 3), "noreset record member changed by reset (or not loaded)")
+        self.check(D.v_eq(outs["ka"], self.ka, 1), "noreset record member (Bit) changed by reset (or not loaded)")
+        self.check(D.v_eq(outs["ke"], self.ke, 3), "noreset array element changed by reset (or not loaded)")
+        self.check(D.v_eq(outs["kp"], self.kp, 3), "noreset primitive changed by reset (or not loaded)")
+        self.check(D.v_eq(outs["nb"], self.nb, 3), "resettable record member not reset to its initial value")
+
+
+def bmc_jobs(tier):
+    js = []
+    for pl, pa, dl in itertools.product((False, True), (False, True), (False, True)):
+        js.append((f"or_reset|parent_low={pl}|parent_async={pa}|derived_low={dl}", or_reset_design(pl, pa, dl), {"reset": 1, "clr": 1, "x": 3}, ["o", "p"], 6, lambda pl=pl, dl=dl: OrResetMonitor(pl, dl)))
+    for low, asy in itertools.product((False, True), (False, True)):
+        js.append((f"noreset-aggregate|low={low}|async={asy}", noreset_aggregate_design(low, asy), {"reset": 1, "ld": 1, "x": 3}, ["kb", "ka", "nb", "ke", "kp"], 6, lambda low=low: NoresetAggMonitor(low)))
+    return js
+
+
+def run_bmc_part(rep, wd, tier, counts):
+    n = 0
+    for key, src, inputs, outputs, K, mk in bmc_jobs(tier):
+        text, exc = compile_design(wd, src, "W", "c04b")
+        rep.stats.programs += 1
+        n += 1
+        if text is None:
+            rep.violation(f"rejected|{key}", f"{key}: wrapper rejected: {type(exc).__name__}: {str(exc)[:200]}", {"source": src})
+            continue
+        try:
+            lib = VS.Library(text)
+            VS.Sim(lib)
+        except Illegal as e:
+            rep.violation(f"illegal|{key}", f"{key}: emitted VHDL illegal: {e}", {"source": src, "vhdl": text})
+            continue
+        status, info = run_bmc(rep.stats, lib, inputs, outputs, K, mk)
+        counts[f"bmc-{status}"] = counts.get(f"bmc-{status}", 0) + 1
+        if status == "ok":
+            rep.stats.nontrivial.add(key)
+        elif status == "violation":
+            rep.violation(f"{key.split('|')[0]}|{key}", f"{key}: {info['failed'][0][0]} at clock {info['failed'][0][1]}; inputs {info['trace'][:info['failed'][0][1] + 1] if isinstance(info['failed'][0][1], int) else ''}", {"source": src, "vhdl": text, **info})
+        else:
+            rep.inconclusive_query(f"{key}: {status} {info}")
+    return n
+
 
 
 def _kind(prog, n):
